@@ -388,6 +388,11 @@ def mutate(rng, proj, kind):
                 s["setup_suite"] = list(s["setup_suite"] or []) + [n]
             else:
                 s["injected"] = list(s["injected"]) + [n]
+        if kind in ("suite_per_thread", "suite_scope") and tests and rng.random() < 0.6:
+            # the same fixture is ALSO used, legitimately, by a test (the first test of the project half of the time: visited
+            # before every later suite): a use that is fine for a test says nothing about the use by a suite
+            for t in both_tests(proj, tests[0] if rng.random() < 0.5 else rng.choice(tests)):
+                t["args"] = t["args"] + [n]
         return kind
     if kind == "dep_unknown":
         if not tests:
